@@ -20,8 +20,8 @@ META = {
          'Decides only the range clause 0..255 for linear(min/max), PID, and function types sum/difference/minimum/maximum/default; agreement with the documented function, delta/average/steps are not decided.',
          'assumes finite non-NaN sensor values and min<max; PidLoop.Loop assumed non-NaN'),
  'C08': ('§4 C08', 'error-propagation path rules + interprocedural taint (non-finite floats)',
-         'Decides only the fault clause: no Sensor.GetValue converts a failed read into a value; the monitor never updates the average after a failed read; no value parsed by strconv.ParseFloat reaches the average without IsNaN/IsInf guards.',
-         'hull and convergence rate are numerical (not decided)'),
+         'Decides the fault clause (no Sensor.GetValue converts a failed read into a value; the monitor never updates the average after a failed read; no value parsed by strconv.ParseFloat reaches the average without IsNaN/IsInf guards) and the one-step hull clause in real arithmetic (the stored average is UpdateSimpleMovingAvg(old, window, reading) of the same sensor, which is proved to lie between old average and reading for window >= 1).',
+         'floating-point rounding and the geometric convergence rate are not decided'),
  'C09': ('§4 C09', 'crash-site inventory over the call graph + error-propagation/taint rules',
          'Decides: no panic / does-not-return call / unchecked error type assertion is reachable from the per-cycle entry points on an error path; curve errors are propagated; cycle errors never reach a panic or an actor return; all actor returns of the per-fan group and the sensor monitor are nil.',
          'library internals (prometheus, echo) summarised; usefulness of continued regulation not decided'),
@@ -41,10 +41,10 @@ META = {
          'Decides isolation and transaction structure: each method uses the bucket constant of its kind and the fan id as key, all bucket access inside one Update closure, ErrNotExist/Delete/nil results on the documented paths, sibling methods agree.',
          'JSON round-trip equality, durability and SIGKILL atomicity are bbolt run-time behaviour (not decided)'),
  'C15': ('§4 C15', 'guarded-path rules',
-         'Decides: the sweep is reachable from LoadFanPwmMap only across err!=nil or loaded-map==nil; a configured pwmMap returns before load and sweep; initialisation is reachable from LoadFanPwmData only across err!=nil; reset/init delete both entries. The README min/max clause is a known finding.',
+         'Decides: the sweep is reachable from LoadFanPwmMap only across err!=nil or loaded-map==nil; a configured pwmMap returns before load and sweep; initialisation is reachable from LoadFanPwmData only across err!=nil; a measured map is saved before regulation starts; reset/init delete both entries. The README min/max clause is a known finding.',
          'process-level behaviour of the database not decided'),
  'C16': ('§4 C16', 'flag-specialised must-lockset analysis',
-         'Decides mutual exclusion by lock coverage: with runFanInitializationInParallel=false every Fan.SetPwm reachable from the analysis entry points holds the global initialisation mutex.',
+         'Decides mutual exclusion by lock coverage: with runFanInitializationInParallel=false every Fan.SetPwm reachable from the analysis entry points holds the global initialisation mutex, and one analysis holds it without a gap.',
          'sound for mutex-based exclusion; restore path excluded'),
  'C17': ('§4 C17', 'value-provenance templates + guarded-path + crash-site rules',
          'Decides: sysfs paths are SysfsPath/fan<rpm>_input, pwm<pwm>, pwm<pwm>_enable and all HwMonFan I/O uses them; pwmChannel defaulted only when 0; index/channel compared for every candidate; no-match returns an error; no unchecked map/index/assert in binding code.',
